@@ -354,13 +354,16 @@ def run_case(case, ctx):
     # ---- L2: exactly KMeans
     if not f32 or True:
         kw = dict(n_clusters=k, init=init, n_init=n_init, max_iter=max_iter, tol=tol, random_state=rs)
+        if case["sub"] % 3 == 1:
+            kw["algorithm"] = "elkan"      # KMeans' other algorithm: the L2 norm is KMeans, whatever it is asked to run
+            cfg["algorithm_L2"] = "elkan"
         if case["sub"] % 5 == 2:
             kw["n_init"] = "auto"      # scikit-learn's default: 10 restarts for a random / callable init, 1 otherwise
             cfg["n_init_L2"] = "auto"
         # the seed as an int, as a RandomState object (two objects in the same state) or None after numpy.random.seed
         rsk = ["int", "int", "RandomState-object", "None-after-global-seed"][(case["sub"] // 4) % 4]
         cfg["random_state_kind"] = rsk
-        kw_int = dict(kw, n_init=n_init)      # the history clause below builds further models (L1 ones too): it keeps the
+        kw_int = {k_: v_ for k_, v_ in dict(kw, n_init=n_init).items() if k_ != "algorithm"}      # the history clause below builds further models (L1 ones too): it keeps the
         #                                      plain integer seed and an integer n_init
         try:
             if rsk == "RandomState-object":
